@@ -220,13 +220,14 @@ pub fn dispatch(a: &Args) -> Option<(Acc, RunMeta)> {
         }
         "C18" => {
             let acc = c18::run(a);
-            let mut m = meta(a, "complete enumeration of the path set of two embedded fixtures (committed harness/fixtures/embed_tree with nested, dotted, multi-byte, prefix-sharing names, empty and binary files; the repository's test/test_directory): every file, implied directory, the root, absent siblings, every proper prefix and one-character extensions of existing names, paths below files; all observers via full snapshots with read buffers 1/7/8192 compared with PhysicalFS on the same folder and with the folder read by std::fs; every public path operation (incl. extreme read/seek scripts) on every such path; every mutator must be refused (NotSupported where a writable backend would accept) and change nothing; distinct = distinct probed paths", &["rust-embed debug-embed feature: bytes really come from the binary", "fixture folders contain no empty directories (an embedded folder cannot represent them)"]);
-            m.exhaustive = Some(true);
+            let mut m = meta(a, "complete enumeration of the path set of two compile-time embedded fixtures and of 300 (quick) / 6000 (thorough) generated embedded trees (1-8 files, depth 1-4, 2-5 names drawn from a pool in which names recur as text inside earlier components, as prefixes/suffixes of siblings and as their own parent's name; served through a hand-written RustEmbed implementation over a per-thread table, mirrored on disk for the PhysicalFS side); fixtures: (committed harness/fixtures/embed_tree with nested, dotted, multi-byte, prefix-sharing names, empty and binary files; the repository's test/test_directory): every file, implied directory, the root, absent siblings, every proper prefix and one-character extensions of existing names, paths below files; all observers via full snapshots with read buffers 1/7/8192 compared with PhysicalFS on the same folder and with the folder read by std::fs; every public path operation (incl. extreme read/seek scripts) on every such path; every mutator must be refused (NotSupported where a writable backend would accept) and change nothing; distinct = distinct probed paths", &["rust-embed debug-embed feature: bytes really come from the binary", "fixture folders contain no empty directories (an embedded folder cannot represent them)"]);
+            // the path set of every tree is enumerated completely, but the generated trees themselves are a sample
+            m.exhaustive = Some(false);
             Some((acc, m))
         }
         "C19" => {
             let acc = c19::run(a);
-            Some((acc, meta(a, "per case: a directory and two files (upper-only, lower-only or copied-up on overlays) on Mem/Phys/Alt/Ovl/Alt(Ovl)/Ovl[Alt] configurations; 3-9 setter calls over the three fields in random order with values from {epoch, +1ns, sub-second extremes, 2001, 2023, 2096, year 9999, before the epoch} (host-calibrated for PhysicalFS); metadata before/after each setter (no reads in between): the set field round-trips exactly, other timestamps/len/type unchanged, failures must be NotSupported and change nothing; adapter metadata equals the served entry's own metadata; appends preserve `created` on memory-backed entries; bytes compared at the end; distinct = distinct (field, entry kind, placement, config family, value)", &["PhysicalFS time values are first calibrated on the host: only values the OS round-trips exactly are demanded"])))
+            Some((acc, meta(a, "per case: a directory and two files (upper-only, lower-only or copied-up on overlays) on Mem/Phys/Alt/Ovl/Alt(Ovl)/Ovl[Alt] configurations; 3-9 setter calls over the three fields in random order with values from {epoch, +1ns, sub-second extremes, 2001, 2023, 2096, year 9999, before the epoch} (host-calibrated for PhysicalFS); metadata before/after each setter (no reads in between): the set field round-trips exactly, other timestamps/len/type unchanged, failures must be NotSupported and change nothing; adapter metadata equals the served entry's own metadata; appends preserve `created` on memory-backed entries; bytes compared at the end; the same setter monitor through the async port (AsyncMemoryFS: not-supported and nothing changes; AsyncPhysicalFS/AsyncAltrootFS/AsyncOverlayFS: round trip) with injected Pending results; distinct = distinct (field, entry kind, placement, config family, value)", &["PhysicalFS time values are first calibrated on the host: only values the OS round-trips exactly are demanded"])))
         }
         "C07" => {
             let acc = c07::run(a);
@@ -252,7 +253,8 @@ pub fn dispatch(a: &Args) -> Option<(Acc, RunMeta)> {
             acc.merge(c18::run(a));
             acc.merge(c06::run(a).0);
             acc.merge(par_run(a, "c13-async", a.n(1500, 10000), c15::hostile_async_case));
-            Some((acc, meta(a, "catch_unwind + panic hook around every library call of: (1) unrestricted histories (all operations on all paths incl. root targets and root removal, wrong types, write scripts with seeks, read scripts with offsets i64::MIN..i64::MAX / u64::MAX) on all configurations; (2) handle scripts with extreme offsets on Mem/Phys/Alt/Ovl handles; (3) handles used after their file / parent directory was removed, replaced or moved; (4) PhysicalFS over directories prepared with std::fs (non-UTF-8 names, dangling symlinks, symlink loops, self links); (5) every operation on every path of the EmbeddedFS fixtures; (6) the join sweep; (7) the async port (same histories through AsyncVfsPath on a tokio current-thread executor); distinct = distinct observable states / scripts / scenarios", &["copy_dir/move_dir into the source's own subtree is never generated (documented non-termination)", "OverlayFS::new(&[]) is the documented panic and is never called", "dev profile: overflow checks and debug assertions on; thorough also runs the release profile"])))
+            acc.merge(par_run(a, "c13-walk-mutation", a.n(800, 8000), c15::walk_mutation_case));
+            Some((acc, meta(a, "catch_unwind + panic hook around every library call of: (1) unrestricted histories (all operations on all paths incl. root targets and root removal, wrong types, write scripts with seeks, read scripts with offsets i64::MIN..i64::MAX / u64::MAX) on all configurations; (2) handle scripts with extreme offsets on Mem/Phys/Alt/Ovl handles; (3) handles used after their file / parent directory was removed, replaced or moved; (4) PhysicalFS over directories prepared with std::fs (non-UTF-8 names, dangling symlinks, symlink loops, self links); (5) every operation on every path of the EmbeddedFS fixtures; (6) the join sweep; (7) the async port (same histories through AsyncVfsPath on a tokio current-thread executor; AsyncPhysicalFS over the prepared directories of (4)); (8) sync and async walk_dir polled to the end while already-listed entries are removed mid-walk; distinct = distinct observable states / scripts / scenarios", &["copy_dir/move_dir into the source's own subtree is never generated (documented non-termination)", "OverlayFS::new(&[]) is the documented panic and is never called", "dev profile: overflow checks and debug assertions on; thorough also runs the release profile"])))
         }
         "C15" => {
             let acc = c15::run(a);
@@ -264,7 +266,7 @@ pub fn dispatch(a: &Args) -> Option<(Acc, RunMeta)> {
         }
         "C17" => {
             let acc = c17::run(a);
-            Some((acc, meta(a, "path tuples (2-4 threads, depth 1-4 over names {a,b}, prefixes of every length shared) of concurrent create_dir_all calls; MemoryFS, Alt(Mem), Ovl[Mem,Mem], Alt(Ovl[Mem,Mem]) under the baton scheduler (depth-first sweep of ALL schedules per tuple while it fits the cap, else random + PCT) with yield points before every MemoryFS lock acquisition; PhysicalFS, Alt(Phys), Ovl[Phys,Phys] free-running with barrier start and random yield/spin/sleep injected at the PhysicalFS::create_dir hook; every call must return Ok and afterwards every requested path and ancestor must be a directory; distinct = distinct schedules (baton) + distinct physical rounds", &["baton mode preempts only at hooked lock acquisitions; physical rounds sample real preemption", "no concurrent removals and no files in the way (as the property states)"])))
+            Some((acc, meta(a, "path tuples (2-4 threads, depth 1-4 over names {a,b}, prefixes of every length shared) of concurrent create_dir_all calls; state before the threads start: nothing, the same names created and removed again, some requested prefixes (or whole paths) already existing, or existing in the lowest overlay layer only; MemoryFS, Alt(Mem), Ovl[Mem,Mem], Alt(Ovl[Mem,Mem]) under the baton scheduler (depth-first sweep of ALL schedules per tuple while it fits the cap, else random + PCT) with yield points before every MemoryFS lock acquisition; PhysicalFS, Alt(Phys), Ovl[Phys,Phys] free-running with barrier start and random yield/spin/sleep injected at the PhysicalFS::create_dir hook; every call must return Ok and afterwards every requested path and ancestor must be a directory; distinct = distinct schedules (baton) + distinct physical rounds", &["baton mode preempts only at hooked lock acquisitions; physical rounds sample real preemption", "no concurrent removals and no files in the way (as the property states)"])))
         }
         "C07strace" => {
             let acc = c07::run_strace_workload(a);
